@@ -3,6 +3,7 @@
 
   selftest/mutation.py generate            enumerate mutants -> /tmp/mutation/mutants.json
   selftest/mutation.py survive [N]         build + run the 294-test suite on each mutant (N workers); survivors pass it
+  selftest/mutation.py recheck [N]         the survivors not reported so far, once more with the checks as they are now
   selftest/mutation.py check [N] [max]     run the quick checks of the properties anchored in the mutated file on survivors
   selftest/mutation.py report              summary -> selftest/mutation_report.json
 
@@ -171,7 +172,7 @@ def survive(nworkers):
     print(Counter(done.values()))
 
 
-def check(nworkers, limit):
+def check(nworkers, limit, redo=False):
     ms = {m['id']: m for m in json.load(open(os.path.join(ROOT, 'mutants.json')))}
     surv = [int(k) for k, v in json.load(open(os.path.join(ROOT, 'survive.json'))).items() if v == 'survived']
     resp = os.path.join(ROOT, 'check.json')
@@ -181,6 +182,9 @@ def check(nworkers, limit):
     order = sorted(surv)
     random.Random(7).shuffle(order)             # a fixed random order: a prefix is a sample over all files
     todo = [i for i in order if str(i) not in done][:limit]
+    if redo:
+        # the survivors no check reported (or on which a check broke), once more with the checks as they are now
+        todo = [i for i in order if str(i) in done and 1 not in done[str(i)].values()]
     chunks = [todo[k::nworkers] for k in range(nworkers)]
 
     def run(k):
@@ -191,7 +195,10 @@ def check(nworkers, limit):
             m = ms[i]
             sh('git -C %s checkout -- .' % wt)
             apply(wt, m)
-            props = sorted(fp.get(os.path.basename(m['file']).split('.')[0], []))
+            base = os.path.basename(m['file']).split('.')[0]
+            props = sorted(fp.get(base, []))
+            if 'payload' in base and 'tecmp' not in base and 'C04' not in props:
+                props.append('C04')            # the validity verdict of a decoded message is C04's, whatever file decides it
             res = {}
             for pid in props:
                 env = dict(os.environ, VERIF_REPO=wt, VERIF_OUT=os.path.join(ROOT, 'out%d' % k), VERIF_JUDGES='6')
@@ -243,6 +250,8 @@ if __name__ == '__main__':
         survive(int(sys.argv[2]) if len(sys.argv) > 2 else 4)
     elif cmd == 'check':
         check(int(sys.argv[2]) if len(sys.argv) > 2 else 3, int(sys.argv[3]) if len(sys.argv) > 3 else 10 ** 6)
+    elif cmd == 'recheck':
+        check(int(sys.argv[2]) if len(sys.argv) > 2 else 3, 10 ** 6, redo=True)
     elif cmd == 'report':
         report()
     elif cmd == 'clean':
